@@ -440,12 +440,61 @@ def count_events(graph: 'CFG', start, end, weight: typing.Callable[[ast.AST], in
     return best.get(nb)
 
 
+_POSITIVE = {ast.NotIn: ast.In, ast.IsNot: ast.Is, ast.NotEq: ast.Eq}
+
+
+def _nnf(test: ast.AST, pol: bool) -> ast.AST:
+    """Negation normal form of ``test`` (``pol`` True) or of ``not test`` (False): ``not`` pushed through and/or (De Morgan)
+    and folded into ``in``/``is``/``==``; literals are rendered positive or as ``not <positive>``."""
+    import copy
+
+    if isinstance(test, ast.UnaryOp) and isinstance(test.op, ast.Not):
+        return _nnf(test.operand, not pol)
+    if isinstance(test, ast.BoolOp):
+        op = test.op if pol else (ast.Or() if isinstance(test.op, ast.And) else ast.And())
+        values = []
+        for v in test.values:
+            w = _nnf(v, pol)
+            if isinstance(w, ast.BoolOp) and type(w.op) is type(op):
+                values.extend(w.values)
+            else:
+                values.append(w)
+        return ast.BoolOp(op=op, values=values)
+    if isinstance(test, ast.Compare) and len(test.ops) == 1 and type(test.ops[0]) in _POSITIVE:
+        pos = copy.copy(test)
+        pos.ops = [_POSITIVE[type(test.ops[0])]()]
+        return _nnf(pos, not pol)
+    return test if pol else ast.UnaryOp(op=ast.Not(), operand=test)
+
+
+def canon_guard(test: ast.AST, pol: bool) -> list[tuple[str, bool]]:
+    """Canonical conjuncts of one guard: NNF, a top-level conjunction split into its members, each literal as
+    (positive text, polarity)."""
+    e = _nnf(test, pol)
+    out = []
+    for v in e.values if isinstance(e, ast.BoolOp) and isinstance(e.op, ast.And) else [e]:
+        if isinstance(v, ast.UnaryOp) and isinstance(v.op, ast.Not):
+            out.append((core.src(ast.fix_missing_locations(v.operand)), False))
+        else:
+            out.append((core.src(ast.fix_missing_locations(v)), True))
+    return out
+
+
+def cg(*want: tuple[str, bool]) -> list[tuple[str, bool]]:
+    """Canonicalise guards written as (source text, polarity) - for comparison with ``cguards`` results."""
+    out = []
+    for text, pol in want:
+        out.extend(canon_guard(ast.parse(text, mode='eval').body, pol))
+    return sorted(set(out))
+
+
 def cguards(node: ast.AST, stop: typing.Optional[ast.AST] = None, siblings: bool = False) -> list[tuple[str, bool]]:
-    """Canonical guards: like ``guards`` but each condition is returned as (text, polarity) with leading ``not`` peeled
-    into the polarity, so that ``if c:`` / ``if not c:`` / ``if not (not c):`` differ only in the boolean."""
+    """Canonical guards: like ``guards`` but each condition is brought into negation normal form and returned as its
+    conjuncts (text, polarity), so that ``if not c`` / ``if c: ... else``, De Morgan duals, ``not a in b`` / ``a not in b``,
+    nested ``if a: if b:`` / ``if a and b:`` differ in nothing."""
     out = []
     for test, pol in guards(node, stop, siblings=siblings):
-        while isinstance(test, ast.UnaryOp) and isinstance(test.op, ast.Not):
-            test, pol = test.operand, not pol
-        out.append((core.src(test), pol))
+        for g in canon_guard(test, pol):
+            if g not in out:
+                out.append(g)
     return out
